@@ -108,10 +108,37 @@ impl Engine for C10 {
                 out.push(Program { keys, blobs, steps });
             }
         }
+        // records whose integrity text cannot address content (planted; no well-formed call
+        // writes them): the listing must still agree with lookups, whatever both make of them
+        let odd: Vec<Option<String>> = vec![
+            Some("".into()),
+            Some(" ".into()),
+            Some("sha256-".into()),
+            Some("sha999-AAAA".into()),
+            Some("sha256-!!!".into()),
+            Some("sha256-QQ==".into()),
+            Some("sha1-deadbeef".into()),
+            Some("md5-1B2M2Y8AsgTpgAmY7PhCfg==".into()),
+            None,
+        ];
+        for (n, integ) in odd.into_iter().enumerate() {
+            for order in 0..3 {
+                let keys = vec!["planted".to_string(), "plain".to_string()];
+                let blobs = vec![Blob::new(5, 1), Blob::new(9, 2)];
+                let w = |k: usize, b: usize, fl: Fl| Step { op: Op::Write(WriteSpec::simple(Some(k), b)), fl };
+                let plant = Step { op: Op::PlantRecord { key: 0, integrity: integ.clone(), time: 5 + n as u64 }, fl: Fl::Sync };
+                let steps = match order {
+                    0 => vec![w(0, 0, Fl::Sync), w(1, 1, Fl::Async), plant],
+                    1 => vec![plant, w(1, 1, Fl::Sync)],
+                    _ => vec![w(0, 0, Fl::Async), plant, w(0, 1, Fl::Sync)],
+                };
+                out.push(Program { keys, blobs, steps });
+            }
+        }
         out
     }
     fn exhaustive_note(&self, _tier: Tier) -> String {
-        "fixed bulk family (not exhaustive): n keys written, every 3rd removed, every 6th re-written, every 5th overwritten, listing judged at the end and after each phase".into()
+        "fixed families (not exhaustive): n keys written, every 3rd removed, every 6th re-written, every 5th overwritten, listing judged at the end and after each phase; and planted records with unusable integrity text before / after / between good records, judged by listing-vs-lookup agreement only".into()
     }
     fn random_cases(&self, tier: Tier) -> u32 {
         tier.pick(1500, 30000)
